@@ -180,7 +180,7 @@ func buildRaceChild() {
 	}
 	srcDir := filepath.Dir(src) // .../harness/cmd/c18
 	modfile := filepath.Join(filepath.Dir(exe), "harness.mod")
-	out := filepath.Join(filepath.Dir(exe), "hx_c18_race")
+	out := filepath.Join(run.Dir, "hx_c18_race") // per run: concurrent checks must not overwrite a running binary
 	ctx, cancel := context.WithTimeout(context.Background(), 5*time.Minute)
 	defer cancel()
 	cmd := exec.CommandContext(ctx, "go1.26.8", "build", "-race", "-modfile", modfile, "-tags", "verif", "-o", out, ".")
